@@ -306,6 +306,60 @@ func checkC05(c *Ctx) {
 		}
 	}
 
+	// C05.11 the view-duration estimator is driven consistently: a failed view lengthens the next timeout exactly once
+	// (not on re-sends), a view counts as succeeded only if it was not left by a timeout, every new view restarts the measurement
+	{
+		fo := NewFlow(p, olt)
+		isDur := func(name string) func(ssa.Instruction) bool {
+			return func(in ssa.Instruction) bool {
+				ci, ok := in.(ssa.CallInstruction)
+				return ok && ci.Common().IsInvoke() && ci.Common().Method.Name() == name && strings.Contains(ci.Common().Value.Type().String(), "ViewDuration")
+			}
+		}
+		// every LocalTimeoutRule call (fresh timeout) is preceded by ViewTimeout; the resend path does not call it
+		okFresh, okResend := true, true
+		nRule := 0
+		eachInstr(olt, func(in ssa.Instruction) {
+			ci, ok := in.(ssa.CallInstruction)
+			if !ok || !ci.Common().IsInvoke() {
+				return
+			}
+			switch ci.Common().Method.Name() {
+			case "LocalTimeoutRule":
+				nRule++
+				if !afterOf(fo.At(in), func(k string) bool { return strings.Contains(k, "ViewDuration).ViewTimeout(") }) {
+					okFresh = false
+				}
+			case "Timeout":
+				if strings.HasPrefix(fo.K.Key(ci.Common().Args[0]), "*p0->hs/protocol/synchronizer.Synchronizer.lastTimeout") &&
+					afterOf(fo.At(in), func(k string) bool { return strings.Contains(k, "ViewDuration).ViewTimeout(") }) {
+					okResend = false
+				}
+			}
+		})
+		nVT := 0
+		eachInstr(olt, func(in ssa.Instruction) {
+			if isDur("ViewTimeout")(in) {
+				nVT++
+			}
+		})
+		c.Check(okFresh && okResend && nRule > 0 && nVT == 1, "C05.11", "OnLocalTimeout: a failed view lengthens the timeout once", p.FuncPos(olt),
+			"duration.ViewTimeout() precedes every fresh timeout and is not reached on the re-send path", "fresh path ok: "+boolStr(okFresh)+", resend path ok: "+boolStr(okResend)+", call sites: "+itoa(nVT))
+		var bad []string
+		for _, s := range callsIn(adv, false, func(cc *ssa.CallCommon) bool { return cc.IsInvoke() && cc.Method.Name() == "ViewSucceeded" }) {
+			if !falseOf(fl.At(s), func(k string) bool { return strings.Contains(k, "VerifySyncInfo(") && strings.HasSuffix(k, "#2") }) {
+				bad = append(bad, "ViewSucceeded at "+p.Pos(s.Pos())+" not under !timeout")
+			}
+		}
+		for _, s := range callsIn(adv, false, func(cc *ssa.CallCommon) bool { return calleeIs(cc, nextView) }) {
+			if reachAvoid(s, isReturn, isDur("ViewStarted")) != nil {
+				bad = append(bad, "a return after NextView without ViewStarted")
+			}
+		}
+		c.Check(len(bad) == 0, "C05.11", "advanceView: measurement restarted on every advance, success only without timeout", p.FuncPos(adv),
+			"ViewSucceeded() only when the verified sync info is not a timeout; ViewStarted() on every path after NextView", join(bad))
+	}
+
 	// C05.9 sibling agreement of the timeout rules: a quorum certificate carried by a sync info can advance the view
 	// (otherwise a certified proposal never moves a replica on and every view has to time out)
 	tr := p.Iface("protocol/synchronizer", "TimeoutRuler")
